@@ -71,6 +71,52 @@ func c14eval(r *vx.R, c c14case) {
 	r.Shape(c.Fn + ":" + c.Shape)
 }
 
+// c14reuse: the same *SM2Point object is used for a call, then given a different value in place (SetBytes / Set / Add), then
+// used again: the second result must be the multiple of the *new* value (no state may be keyed on the object's identity).
+func c14reuse(r *vx.R, fn string, p1, p2 sm2ref.Point, g, s []byte, how string) {
+	r.Eval(1)
+	c := c14case{Fn: "reuse-" + fn, G: vx.Hex(g), S: vx.Hex(s), P: vx.Hex(encRef(p2)), Shape: how}
+	var got *internal.SM2Point
+	var err error
+	kind, msg := vx.Try(func() {
+		obj := implPoint(p1)
+		call := func() (*internal.SM2Point, error) {
+			if fn == "mixed" {
+				return internal.ScalarMixedMult_Unsafe(g, obj, s)
+			}
+			return internal.ScalarMult(obj, s)
+		}
+		if _, e := call(); e != nil {
+			err = e
+			return
+		}
+		switch how {
+		case "SetBytes":
+			obj.SetBytes(encRef(p2))
+		case "Set":
+			obj.Set(implPoint(p2))
+		case "Add": // p1 + (p2 - p1)
+			obj.Add(obj, implPoint(sm2ref.Add(p2, sm2ref.Neg(p1))))
+		}
+		got, err = call()
+	})
+	if kind != "" || err != nil || got == nil {
+		r.Violation("sm2mul:reuse-"+fn+":fail", fmt.Sprintf("%s %v %s", kind, err, msg), c)
+		return
+	}
+	var want sm2ref.Point
+	if fn == "mixed" {
+		want = sm2ref.MulAdd(new(big.Int).SetBytes(g), new(big.Int).SetBytes(s), p2)
+	} else {
+		want = sm2ref.Mul(new(big.Int).SetBytes(s), p2)
+	}
+	gr, bad := refPoint(got)
+	if bad != "" || !gr.Equal(want) {
+		r.Violation("sm2mul:reuse-"+fn+":stale", fmt.Sprintf("%s on a point object that was given a new value in place (%s) after an earlier call returns the multiple of something else: got %s want %s", fn, how, showRef(gr), showRef(want)), c)
+	}
+	r.Shape("reuse:" + fn + ":" + how)
+}
+
 func bytes32(v *big.Int) []byte { return sm2ref.Bytes32(v) }
 
 // combScalars enumerates, for the fixed-window layout (window w, step = subTables*iterations, remainder rem),
@@ -151,6 +197,11 @@ func TestVX_C14(t *testing.T) {
 	if raw, ok := vx.Replay("mul-public"); ok {
 		var c c14case
 		json.Unmarshal(raw, &c)
+		if len(c.Fn) > 6 && c.Fn[:6] == "reuse-" {
+			pts := c14points()
+			c14reuse(r, c.Fn[6:], pts["seeded0"], pts["seeded1"], vx.UnHex(c.G), vx.UnHex(c.S), c.Shape)
+			return
+		}
 		c14eval(r, c)
 		return
 	}
@@ -264,6 +315,18 @@ func TestVX_C14(t *testing.T) {
 			combScalars(6, 3, 14, 4, []int{0}, func(k []byte, shape string) {
 				run(c14case{Fn: "mixed", G: vx.Hex(k), S: vx.Hex(bytes32(big.NewInt(5))), P: enc, Shape: pn + ":" + shape})
 			})
+		}
+	}
+	// object reuse sequences
+	if vx.MineIdx(3) {
+		pa, pb := pts["seeded0"], pts["seeded1"]
+		g := bytes32(gAlpha["seeded"])
+		for _, how := range []string{"SetBytes", "Set", "Add"} {
+			for _, sv := range []*big.Int{big.NewInt(5), bnd["n-1"], gAlpha["seeded"]} {
+				c14reuse(r, "mixed", pa, pb, g, bytes32(sv), how)
+				c14reuse(r, "mult", pa, pb, g, bytes32(sv), how)
+				c14reuse(r, "mixed", pts["G"], pts["2G"], g, bytes32(sv), how)
+			}
 		}
 	}
 	// cancellation inside the loop: [g]G + [s]P = O for P = G, s = n - g
